@@ -3,6 +3,7 @@ likely to use or catch internally itself.  A wrapper must hand each of them back
 object) and must not treat it as one of its own signals."""
 
 import asyncio
+import concurrent.futures
 
 OWN_CLASSES: list[type[BaseException]] = [
     TypeError,
@@ -18,6 +19,8 @@ OWN_CLASSES: list[type[BaseException]] = [
     StopAsyncIteration,
     asyncio.InvalidStateError,
     ExceptionGroup,
+    concurrent.futures.CancelledError,  # an ordinary Exception, unrelated to asyncio.CancelledError
+    concurrent.futures.InvalidStateError,
 ]
 
 
